@@ -41,6 +41,7 @@ def run(ctx) -> None:
     # ... and checks every well it is handed: no sequence zipped into the update loop can cut it short
     from . import c04
 
+    ctx.reuse("C03.tracked-amount", c04.pairing_family)
     for kind in ("add", "remove"):
         ctx.reuse("C03.tracking-rejects", c04.length_guard, kind)
         ctx.reuse("C03.tracking-rejects", c04.frame_delta, kind)
